@@ -464,6 +464,8 @@ def case_term(kind, prj, rope_prj, before, refused=None):
     P = G.g_prog(prj, I)
     R = "None" if rope_prj is None else "(Some %s)" % G.g_prog(rope_prj, I)
     outs = parse_out(before[1]) if before[0] == 0 else None
+    if any(c.get("base") for c in prj["classes"]):
+        outs = None          # Obj has no inheritance: the model's run is not compared (execution oracle only)
     O = "None" if outs is None else "(Some %s)" % G.g_list(outs)
     F = "None" if refused is None else "(Some %s)" % G.g_bool(refused)
     return "{| c_cfg := %s; c_prog := %s; c_rope := %s; c_out := %s; c_refused := %s; c_fuel := 60%%nat |}" % (
@@ -588,6 +590,60 @@ def evaluate_others(prj, rng):
         m = re.compile(r"^\s+%s = " % re.escape(var), re.M).search(srcs["ma"], i)
         off = m.end() - len(var) - 3
         add("l2f", "%s.%s" % (meth, var), do_local_to_field(srcs, "ma", off), {"mod": "ma", "offset": off})
+    # LocalToField requested on things that are NOT locals of a method: locals and parameters of plain functions,
+    # parameters of methods, module-level variables.  (HEAD refuses; whatever is answered goes through the oracle.)
+    others = []
+    for mod in ("ma", "mb", "main"):
+        src = srcs[mod]
+        for m in re.finditer(r"^def \w+\((\w+)", src, re.M):
+            others.append((mod, m.start(1), "param"))
+        for m in re.finditer(r"^    def \w+\(self, (\w+)", src, re.M):
+            others.append((mod, m.start(1), "method-param"))
+        for m in re.finditer(r"^(\w+) = ", src, re.M):
+            others.append((mod, m.start(1), "global"))
+        in_func = None
+        for m in re.finditer(r"^(def )|^(class )|^    (\w+) = ", src, re.M):
+            if m.group(1):
+                in_func = True
+            elif m.group(2):
+                in_func = False
+            elif in_func:
+                others.append((mod, m.start(3), "function-local"))
+    rng.shuffle(others)
+    seen = set()
+    for mod, off, what in others:
+        if what in seen:
+            continue
+        seen.add(what)
+        add("l2f", "%s@%s:%d" % (what, mod, off), do_local_to_field(srcs, mod, off),
+            {"mod": mod, "offset": off, "l2f_target": what})
+    return recs
+
+
+def evaluate_nest(rng):
+    """MethodObject / LocalToField / UseFunction on hosts at nesting depth 1-3 (text scenario, oracle only)."""
+    srcs, funcs, locs = G.nest_project(rng)
+    prj = {"hazard": None, "nest": True}
+    recs = []
+
+    def add(kind, target, res, extra):
+        st, new = res
+        rec = dict({"kind": kind, "prj": prj, "srcs": srcs, "before": None, "rt_ok": True, "rope_prj": None,
+                    "oracle": None, "status": st, "new": new if st == "ok" else None, "skip_model": True,
+                    "target": target, "mod": "ma"}, **extra)
+        if st != "ok":
+            rec["msg"] = new
+        recs.append(rec)
+    rng.shuffle(funcs)
+    for f in funcs[:4]:
+        add("mobj", f, do_method_object(srcs, "ma", f), {})
+    for f in rng.sample(["top", "solo", "inner", "plain", "helper"], 2):
+        add("usef", f, do_use_function(srcs, "ma", f), {})
+    rng.shuffle(locs)
+    for anchor, is_method_local in locs[:4]:
+        off = srcs["ma"].index(anchor)
+        add("l2f", anchor.strip(), do_local_to_field(srcs, "ma", off),
+            {"offset": off, "l2f_target": "method-local" if is_method_local else "not-a-method-local"})
     return recs
 
 
@@ -662,6 +718,12 @@ def check_records(ctx, recs):
         ctx.count("%s:%s" % (kind, r["status"]))
         hz = r["prj"].get("hazard")
         ctx.count("%s:stream:%s" % (kind, hz or "main"))
+        if kind == "l2f" and r.get("l2f_target"):
+            ctx.count("l2f:target:%s:%s" % (r["l2f_target"], r["status"]))
+        if r["prj"].get("nest"):
+            ctx.count("%s:nested-host:%s" % (kind, r["status"]))
+        if r["prj"].get("inherit"):
+            ctx.count("%s:inheritance-%s:%s" % (kind, r["prj"]["inherit"], r["status"]))
         if r.get("tag_diff"):
             ctx.count("enc:occurrences where the finder differs from the generator's prediction", r["tag_diff"])
         ctx.case((kind, sorted(r["srcs"].items())), nontrivial=(r["status"] == "ok" and r["new"] != r["srcs"]))
@@ -753,7 +815,11 @@ def run(ctx):
                 "the Obj fragment: reads, writes, augmented writes of C.x through locals, self, parameters (not "
                 "resolved by rope: must stay untouched), attribute chains d.c.x, call results, fresh instances; "
                 "layouts: tight/wide '=', multi-line parenthesised and backslash-continued right-hand sides; "
-                "import styles 'from ma import C' / 'import ma'. A case = (project, refactoring); non-trivial when "
+                "import styles 'from ma import C' / 'import ma'; unrelated identifiers, a method, comments and strings "
+                "spelled like the factory / class; a base class defining (or not) methods spelled like the accessors; "
+                "a separate text scenario with hosts at nesting depth 1-3 (class in class, function in method, function "
+                "in function) followed by further members; LocalToField also requested on parameters, locals of plain "
+                "functions and globals. A case = (project, refactoring); non-trivial when "
                 "rope produced a change; distinct by the project's sources. Hazard streams plant exactly one "
                 "statement of a known-defect shape (findings.d).")
     n_main = ctx.scale(60, 700)
@@ -767,6 +833,20 @@ def run(ctx):
     for p in prjs[:n_other]:
         if not p.get("hazard"):
             recs.extend(evaluate_others(p, ctx.rng))
+    for i in range(ctx.scale(12, 120)):
+        recs.extend(evaluate_nest(ctx.rng))
+    # inheritance: the field's class has a base class that defines (or not) methods spelled like the accessors
+    n_inh = ctx.scale(12, 120)
+    i = 0
+    while i < n_inh:
+        g = G.Gen(ctx.rng, inherit=("clash" if i % 2 == 0 else "plain"))
+        p = g.project()
+        if set(features(G.print_project(p))) & OPEN_FEATURES:
+            continue
+        i += 1
+        for k, v in g.counts.items():
+            ctx.count(k, v)
+        recs.extend(evaluate_project(p, ["enc", "fac"]))
     n_usef = ctx.scale(24, 240)
     for i in range(n_usef):
         g = G.Gen(ctx.rng)
